@@ -174,6 +174,11 @@ def fingerprint():
                         continue
                     if (mname, v.__name__, ck) == ("pdpy11.deferred", "Deferred", "next_instance_id"):
                         continue  # only names anonymous deferreds in repr(): not observable by the property
+                    if (mname, v.__name__, ck) == ("pdpy11.deferred", "Progress", "epoch"):
+                        # a clock that only moves forward and is only compared for equality with stamps taken from it by objects of
+                        # the current assembly: its absolute value is not observable (pairs, triples and the long histories check the
+                        # results themselves, whatever the fingerprint says)
+                        continue
                     cd[ck] = canon(cv, 0)
                 md["class " + k] = cd
             else:
